@@ -658,7 +658,15 @@ func runSWUnguarded(c SWCase) ev.Outcome {
 		return ev.Outcome{Violation: where + " test engine panicked on an in-domain input: " + pan}
 	}
 	if err != nil {
-		return ev.Outcome{Violation: fmt.Sprintf("%s in-domain input not satisfiable with the native result (%s,%s): %v", where, hx(out.X), hx(out.Y), trimErr(err))}
+		extra := ""
+		if !out.isInf() {
+			// diagnostic probe: does the gadget output (0,0) instead?
+			ci, as := tg.build(&c, inf())
+			if e2, p2 := engineSolved(ci, as, tg.field); e2 == nil && p2 == "" {
+				extra = " [the circuit accepts the claimed output (0,0) instead]"
+			}
+		}
+		return ev.Outcome{Violation: fmt.Sprintf("%s in-domain input not satisfiable with the native result (%s,%s)%s: %v", where, hx(out.X), hx(out.Y), extra, trimErr(err))}
 	}
 	classes = append(classes, "honest-accepted")
 	if c.Wrong != "" {
